@@ -45,6 +45,10 @@ CHECKS = {
                 technique="fault enumeration: every view length n in 0..len (buffer ending at a PROT_NONE page) x every accessor / iterator step / container operation of the generated views, each op individually guarded in a checked build; plus header-steered variants; outcome classes OK / HANDLER / FAULT",
                 text="For every image of the bounded space and every truncation length, each operation of the op table is run on a view bound to exactly n bytes: a fault at or beyond p+n means the operation touched memory outside the view without the assertion handler (violation); the handler firing although the whole addressed sub-object lies inside the buffer is a spurious assertion (violation). Corrupted header fields steer dynamic offsets past the end; there only the first direction is judged.",
                 note="Trusted: guard pages, siglongjmp capture of the documented assertion handler. Accesses *before* p (pointer wrap-around) and CPU time are outside this property's sentence and are counted, not judged."),
+    "C11": dict(category="exploration", design_ref="DESIGN.md 5 / C11",
+                technique="bounded-exhaustive enumeration of the complete mutator list of every generated view class x const byte/cursor combinations as detection-idiom probes (positive control on the mutable twin), second-stage real-call compiles for what the idiom cannot decide, conversion pairs, and every non-mutating operation executed on images mapped PROT_READ",
+                text="For kinds and a stride of the catalogue: every setter, set_by_tag, cursor setter, header filler, resize/clear and every dynamic/static array mutator overload incl. element assignment is probed for (V<const B>), (V<const B>,cursor<B>), (V<B>,cursor<const B>), (V<const B>,cursor<const B>): none may compile, the mutable twin must. Views/cursors convert implicitly only towards more-const. All getters, size queries, iterators, cursor traversals, by-tag reads and visits run on read-only mappings, where any write faults.",
+                note="Trusted: compilers (SFINAE / hard errors), mprotect."),
     "C12": dict(category="model_checking", design_ref="DESIGN.md 5 / C12",
                 technique="explicit-state exploration of the real group iterators: state = iterator index, all iterator-op sequences up to depth 3 from begin() and end(), integer index model; all 16 dimension type pairs",
                 text="For each of the 16 (numInGroup, blockLength) type pairs x group sizes 0..3 x wire block lengths {0,1,2,5}: every in-domain sequence of iterator operations up to the depth bound is executed on the generated group views; after every step the entry address, it[k], (it+k)-k, distances and all six orderings against an iterator at every index are compared with index arithmetic. Nested groups: all inner-count vectors over {0,1,2}^n. resize/clear are checked to change only numInGroup.",
